@@ -26,6 +26,7 @@ void     vp_free_now(void * p);
 int      vp_mutex_held(const void * m);
 int      vp_threads_alive(void);
 void     vp_yield(void);
+void     vp_watch(const void * p, uint64_t n, const char * tag);   // record which bytes get written
 }
 
 struct VpBlocked { int dummy; };
